@@ -1,0 +1,13 @@
+//go:build verif
+
+package lisp
+
+// SimResetStepper restores the process-wide debugger flags to their initial
+// state, so that a simulated run does not inherit them from the previous run
+// in the same process.
+func SimResetStepper() {
+	Stepper = nil
+	skip = false
+	outing1 = false
+	outing2 = false
+}
